@@ -120,23 +120,47 @@ def r2_helpers(ctx):
     if f is None:
         raise AnalysisError("numpy_pandas_coercible missing")
     ctx.touched(f)
-    inner = list(f.nested.values())
-    ok = False
-    detail = "no element-wise predicate"
-    for g in inner:
-        ts = [t for t in walk_no_nested(g.node) if isinstance(t, ast.Try)]
-        if ts:
-            t = ts[0]
-            calls_cv = any(callee_last(c) == "coerce_value" for b in t.body for c in calls_in(b))
-            ret_true = any(isinstance(s, ast.Return) and isinstance(s.value, ast.Constant) and s.value.value is True for b in t.body for s in ast.walk(b))
-            ret_false = any(isinstance(s, ast.Return) and isinstance(s.value, ast.Constant) and s.value.value is False for h in t.handlers for s in ast.walk(h))
-            ok = calls_cv and ret_true and ret_false
-            detail = f"coerce_value called: {calls_cv}; True on success: {ret_true}; False on exception: {ret_false}"
-    # the value returned is exactly <series>.map(<that predicate>): nothing is OR-ed / AND-ed onto the flags
     ex = Expander(f.node)
     rets = [ex.expand(s.value) for s in function_stmts(f) if isinstance(s, ast.Return) and s.value is not None]
-    mapped = bool(rets) and all(isinstance(r, ast.Call) and callee_last(r) in ("map", "apply") and txt(r.func.value) == f.positional[0]
-                                and len(r.args) == 1 and isinstance(r.args[0], ast.Name) and r.args[0].id in f.nested for r in rets)
+
+    def predicate_of(a):
+        """the function applied to each element: a nested / module-level function, possibly behind `lambda x: g(.., x)` or partial(g, ..)"""
+        if isinstance(a, ast.Lambda) and isinstance(a.body, ast.Call):
+            params = {x.arg for x in a.args.args}
+            if not any(isinstance(y, ast.Name) and y.id in params for y in list(a.body.args) + [k.value for k in a.body.keywords]):
+                return None
+            a = a.body.func
+        elif isinstance(a, ast.Call) and callee_last(a) == "partial" and a.args:
+            a = a.args[0]
+        if isinstance(a, ast.Name):
+            return f.nested.get(a.id) or u.functions.get(a.id)
+        return None
+
+    ok = False
+    detail = "no element-wise predicate"
+    mapped = bool(rets)
+    for r in rets:
+        g = None
+        if isinstance(r, ast.Call) and callee_last(r) in ("map", "apply") and isinstance(r.func, ast.Attribute) and txt(r.func.value) == f.positional[0] \
+                and len(r.args) == 1 and not r.keywords:
+            g = predicate_of(r.args[0])
+        if g is None:
+            mapped = False
+            continue
+        ts = [t for t in walk_no_nested(g.node) if isinstance(t, ast.Try)]
+        all_rets = [x for x in walk_no_nested(g.node) if isinstance(x, ast.Return)]
+        if len(ts) == 1:
+            t = ts[0]
+            calls_cv = any(callee_last(c) == "coerce_value" for b in t.body for c in calls_in(b))
+            const = lambda x, v: isinstance(x, ast.Return) and isinstance(x.value, ast.Constant) and x.value.value is v
+            after = [x for x in g.node.body[g.node.body.index(t) + 1:]] if t in g.node.body else []
+            ret_true = any(const(x, True) for b in list(t.body) + list(t.orelse) + after for x in ast.walk(b))
+            ret_false = bool(t.handlers) and all(any(const(x, False) for b in h.body for x in ast.walk(b)) for h in t.handlers)
+            only_const = all(isinstance(x.value, ast.Constant) and isinstance(x.value.value, bool) for x in all_rets)
+            false_elsewhere = any(const(x, False) for b in list(t.body) + list(t.orelse) + after for x in ast.walk(b))
+            true_in_handler = any(const(x, True) for h in t.handlers for b in h.body for x in ast.walk(b))
+            ok = calls_cv and ret_true and ret_false and only_const and not false_elsewhere and not true_in_handler
+            detail = f"coerce_value called: {calls_cv}; True on success: {ret_true and not false_elsewhere}; False on exception: {ret_false and not true_in_handler}"
     ctx.ob("R2", f, "numpy_pandas_coercible(x) == `coerce_value(x)` does not raise, element-wise", ok and mapped,
            detail + (f"; returned as {f.positional[0]}.map(predicate)" if mapped else
                      f"; the returned flags are `{txt(rets[0])[:80] if rets else None}`, not the plain element-wise map: elements whose "
